@@ -1,7 +1,9 @@
 (* B00 - auxiliary check for the shared base libraries (Base64, Sha256, Strconv, Utf8):
    not a property of golang/mod; ties the models to Go's standard library by the
-   correspondence run and states the lemmas other properties rely on. *)
+   correspondence run and states the lemmas other properties rely on.
+   Theorems only; each is closed by [exact] of a lemma proved in Base/*Proofs.v. *)
 From Verif.Base Require Import Bytes Base64 Sha256 Strconv.
+From Verif.Base Require Import Utf8 Base64Proofs Sha256Proofs StrconvProofs Utf8Proofs QuoteProofs.
 
 Theorem B00_sha256_abc :
   sha256 (B "abc") =
@@ -9,3 +11,76 @@ Theorem B00_sha256_abc :
    176; 3; 97; 163; 150; 23; 122; 156; 180; 16; 255; 97; 242; 0; 21; 173].
 Proof. vm_compute. reflexivity. Qed.
 Print Assumptions B00_sha256_abc.
+
+Theorem B00_sha256_length : forall s, length (sha256 s) = 32%nat.
+Proof. exact sha256_length. Qed.
+Print Assumptions B00_sha256_length.
+
+Theorem B00_sha256_bytes : forall s, Forall (fun b => 0 <= b < 256) (sha256 s).
+Proof. exact sha256_bytes. Qed.
+Print Assumptions B00_sha256_bytes.
+
+Theorem B00_b64_decode_encode :
+  forall s, Forall (fun b => 0 <= b < 256) s -> Base64.decode (Base64.encode s) = Some s.
+Proof. exact b64_decode_encode. Qed.
+Print Assumptions B00_b64_decode_encode.
+
+Theorem B00_b64_encode_length :
+  forall s, length (Base64.encode s) = (4 * ((length s + 2) / 3))%nat.
+Proof. exact b64_encode_length. Qed.
+Print Assumptions B00_b64_encode_length.
+
+(* every output character is in A-Z a-z 0-9 + / or is '=' *)
+Theorem B00_b64_encode_alphabet :
+  forall s, Forall (fun b => 0 <= b < 256) s ->
+  Forall (fun c => (match sextet c with Some _ => true | None => c =? 61 end) = true) (Base64.encode s).
+Proof. exact b64_encode_alphabet. Qed.
+Print Assumptions B00_b64_encode_alphabet.
+
+Theorem B00_parse_format_int :
+  forall n, - 2 ^ 63 <= n < 2 ^ 63 -> parse_int64 (format_int n) = Some n.
+Proof. exact parse_format_int. Qed.
+Print Assumptions B00_parse_format_int.
+
+Theorem B00_atoi_format_int :
+  forall n, - 2 ^ 63 <= n < 2 ^ 63 -> atoi (format_int n) = Some n.
+Proof. exact atoi_format_int. Qed.
+Print Assumptions B00_atoi_format_int.
+
+(* optional '-', then decimal digits without a leading zero (except for "0") *)
+Theorem B00_format_int_shape :
+  forall n, exists ds,
+    format_int n = (if n <? 0 then [45] else []) ++ ds /\
+    Forall (fun c => is_digit c = true) ds /\ ds <> [] /\ (n = 0 -> ds = [48]) /\
+    (n <> 0 -> exists c r, ds = c :: r /\ c <> 48).
+Proof. exact format_int_shape. Qed.
+Print Assumptions B00_format_int_shape.
+
+Theorem B00_format_int_inj : forall n m, format_int n = format_int m -> n = m.
+Proof. exact format_int_inj. Qed.
+Print Assumptions B00_format_int_inj.
+
+(* strconv.Unquote(strconv.Quote(s)) = s for every byte string, valid UTF-8 or not *)
+Theorem B00_unquote_quote :
+  forall s, Forall (fun b => 0 <= b < 256) s -> unquote (quote s) = Some s.
+Proof. exact unquote_quote. Qed.
+Print Assumptions B00_unquote_quote.
+
+(* Quote(s) is a double quote, a body made of plain characters (no backslash, double quote
+   or newline) and backslash-plus-one-character pairs, and a double quote *)
+Theorem B00_quote_shape :
+  forall s, Forall (fun b => 0 <= b < 256) s ->
+  exists body, quote s = 34 :: body ++ [34] /\ dq_safe body.
+Proof. exact quote_shape. Qed.
+Print Assumptions B00_quote_shape.
+
+(* utf8.DecodeRune after utf8.EncodeRune, for valid runes *)
+Theorem B00_utf8_decode_encode :
+  forall r tail, (0 <= r < 55296 \/ 57343 < r <= 1114111) ->
+  Utf8.decode (Utf8.encode r ++ tail) = (r, length (Utf8.encode r)).
+Proof. exact decode_encode. Qed.
+Print Assumptions B00_utf8_decode_encode.
+
+Example B00_hypotheses_satisfiable :
+  (- 2 ^ 63 <= -9223372036854775808 < 2 ^ 63) /\ Forall (fun b => 0 <= b < 256) [0; 255].
+Proof. split; [lia | repeat constructor; lia]. Qed.
